@@ -238,7 +238,9 @@ class Glue:
         lhs = m * A * vden
         rhs = vnum * B
         if trunc:
-            bad = z3.Or(lhs > rhs, (m + 1) * A * vden <= rhs)
+            # a truncated scan with mantissa 0 carries no exponent (the code leaves exp = 0); the
+            # tiers never use it: rnd(0) differs from rnd(1*10^exp), so the re-check sends it to the fallback
+            bad = z3.And(m != 0, z3.Or(lhs > rhs, (m + 1) * A * vden <= rhs))
         else:
             bad = lhs != rhs
         bad = z3.Or(bad, z3.BoolVal(bool(neg) != vneg))
@@ -363,11 +365,27 @@ class Glue:
             if same == 'unsat':
                 results.append(('unsat', None))
             elif hi_desc is not None:
-                hnum, hden, _, hside, _ = self.quantity(hi_desc)
+                hnum, hden, _, hside, hhi = self.quantity(hi_desc)
                 outside = z3.Or(signbad, vnum * qden < qnum * vden, vnum * hden > hnum * vden)
-                results.append((lia.check(st.pc, st.extras, (), raw=base + hside + [outside]), 'sandwich'))
-                if results[-1][0] == 'sat':
-                    results[-1] = ('sat', {'assign': lia.model_assign()})
+                r_out = lia.check(st.pc, st.extras, (), raw=base + hside + [outside])
+                if r_out == 'unsat':
+                    results.append(('unsat', 'sandwich'))
+                else:
+                    # the path assumed f2 == fUp; that is only possible when one float is the correct
+                    # rounding of both ends. Look for a literal outside the bracket for which it is.
+                    frac = lia.fresh('sf')
+                    rng = [frac >= 0, frac < (1 << 52)]
+                    top = max(hhi, 1)
+                    verdict = ('unsat', 'sandwich-infeasible')
+                    for ef in range(0, min(0x7FE, 1075 + top.bit_length() + 1) + 1):
+                        both = [z3.Not(wrong_formula_q(qnum, qden, ef, frac)), z3.Not(wrong_formula_q(hnum, hden, ef, frac))]
+                        r = lia.check(st.pc, st.extras, (), raw=base + hside + rng + both + [outside])
+                        if r == 'sat':
+                            verdict = ('sat', {'assign': lia.model_assign()})
+                            break
+                        if r == 'unknown':
+                            verdict = ('unknown', None)
+                    results.append(verdict)
             else:
                 # is there a float that is the correct rounding of q but not of v ?
                 frac = lia.fresh('gf')
